@@ -22,6 +22,12 @@ Explicit-state search over operation histories of the real ``biogeme.database.Da
   condition value can arise; every placement of undefined values in a defined variable, then panel / remove /
   flatten; every placement of {value, other value, undefined} in one column of a raw frame handed directly to
   ``biogeme.tools.database.flatten_database`` (the function behind generate_flat_panel_dataframe).
+* a third search runs over the *column-type* alphabet: root tables whose columns are all int64, all float64, or mixed
+  either way (one of them is the text of a CSV file read by pandas.read_csv), and operations whose operands are not
+  integers (scale factors 0.5 / 0.01 / 2.5, thresholds, coefficients and condition values between 0 and 1, a counted
+  value 0.5); a sweep applies every operand of a menu x every column x every kind of transformation (scale, stored
+  product then used as condition, stored difference, product / threshold / equality as condition) after a few earlier
+  operations on every root table, and the hand-written chains are repeated on the typed tables.
 
 The reference model never imports biogeme / pandas / numpy.
 """
@@ -60,11 +66,26 @@ RULE = ('one case per executed operation: (root table, history, operation, rando
         '(c-1)*m, raw number) x 4 earlier histories x 3 roots; all 31 placements of NaN in a defined variable x base '
         '0,x|0,id,x x 2|5 histories (define, [remove], panel, flatten ...) x 3 roots; all 3^5 columns over {v1, v2, NaN} x '
         '2|5 raw frames (contiguous / interleaved / unsorted / single / singleton individuals; range, duplicate, permuted, '
-        'gapped labels) x identical columns detected / given / given with all-undefined individuals.  (a|b = quick|thorough)')
+        'gapped labels) x identical columns detected / given / given with all-undefined individuals.  Column types (third '
+        'search, depth 3): root tables A.i (every column int64), B.f (every column float64), C.v (CSV text read by '
+        'pandas.read_csv: x, id, r int64, c float64) | all 9 index layouts x typings; remove x {c > 0.5, c*0.5, x*0.125, the '
+        'stored column q = c*0.5-0.5}, add_column h = c*0.5 + id*0.25, define_variable q, scale_column c by 0.5, x by 0.01, '
+        'id by 0.5 | also c by 2.5 and x by 3, panel; values_from_database(c*0.5 + id*0.25) and count(column, 0.5) in every '
+        'state; thorough: also the base alphabet (depth 3, complete observer list) from A.i, B.f, C.v.  Operand sweep: 6|11 '
+        'operands (0.5, 0.01, -0.25, 1/3, 0.999, 3 | 1.5, 1e-3, 2.5, 2.0, -1) x columns c, x, id x 6 kinds of transformation '
+        '(scale; add col*k then remove on it; define col-k; remove on col*k, on col > k, on col*k == k) x 4 earlier '
+        'histories x 6|12 root tables (the three mixed ones and the typed ones), written cells compared with a purely '
+        'relative tolerance; the six chains on the typed tables (2 each | all).  (a|b = quick|thorough)')
 ASSUMPTIONS = [
     'tables have 5 rows (ids grouped 2-1-2) and 4 numeric columns with dyadic values so that the reference arithmetic is '
     'exact; three root tables: RangeIndex / permuted integer labels with unsorted individual ids / duplicate labels '
     '(as produced by pd.concat or by the library\'s own sample_with_replacement); VERIF_SEED selects one of five value alphabets',
+    'column types are int64 and float64 (what a CSV reader produces for numeric columns; the library refuses non-numeric '
+    'columns): x float64 and id, r, c int64 in the three base tables, all-int64 / all-float64 / read_csv-inferred variants '
+    '(x = 4*XS as integers) in the column-type parts; the statement speaks of values, so the type of a column after an '
+    'operation is not checked, only every value; operands that are not dyadic (0.01, 1/3, 0.999, 1e-3) are multiplied in '
+    'the reference by the same single IEEE operation (integer cell -> float, times operand) and compared at relative 1e-10; '
+    'scaling the panel column after panel() (a change of the identifiers the individual map is keyed by) is not in the alphabet',
     'library randomness enters only through numpy.random.randint, numpy.random.shuffle and DataFrame.sample(frac=1) '
     '(owned; a call outside an enumerated operation, or a different use of the seams, is a harness error)',
     'excludedData is the number of rows deleted by the most recent remove (the documented per-call meaning)',
@@ -108,6 +129,21 @@ TABLES = {
     'C': dict(ids=IDS_SORTED, index=[0, 1, 2, 0, 1]),        # duplicate labels (two concatenated parts)
 }
 XTHR = [1.0, 0.2, 1.0, 0.4, 0.5][_K]
+# -- column types.  A table name is '<A|B|C>' (the mixed table above: x float64, id / r / c int64 as built from Python
+# numbers) or '<A|B|C>.<variant>':  i = every column int64 (x holds 4*XS), f = every column float64, v = the text of a
+# CSV file read by pandas.read_csv (x written as integers -> int64, c written as '1.0' -> float64, id / r int64).
+XI = [int(v * 4) for v in XS]
+assert [v / 4 for v in XI] == [float(v) for v in XS]
+DT_VARIANTS = ('i', 'f', 'v')
+
+
+def split_table(table):
+    base, _, var = table.partition('.')
+    return base, (var or 'm')
+
+
+def table_x(var):
+    return XS if var in ('m', 'f') else XI
 
 
 def V(n):
@@ -159,10 +195,28 @@ WIDE_DEFINES = {'w': 'undef'}
 WIDE_SCALES_Q = [('x', 2.0 ** -40)]
 WIDE_SCALES_T = [('x', 2.0 ** -40), ('x', 1e-9), ('c', 2.0 ** 40)]
 
+# column-type alphabet (third breadth-first search): the same operations with operands that are not integers, on tables
+# whose columns are all integer / all float / mixed either way (a file of costs in cents and times in minutes)
+FORMULAS['frac'] = ('+', ('*', V('c'), N(0.5)), ('*', V('id'), N(0.25)))       # non-integer coefficients
+FORMULAS['halfc'] = ('-', ('*', V('c'), N(0.5)), N(0.5))                         # -0.5 / 0 / 0.5
+FORMULAS['c_gt_half'] = ('>', V('c'), N(0.5))                                    # non-integer threshold
+FORMULAS['frac_c'] = ('*', V('c'), N(0.5))                                       # condition values 0 / 0.5 / 1
+FORMULAS['x_frac'] = ('*', V('x'), N(0.125))                                     # condition values below 1 in magnitude
+DT_CONDS = ['c_gt_half', 'frac_c', 'x_frac', 'col:q']
+DT_ADDS = {'h': 'frac'}
+DT_DEFINES = {'q': 'halfc'}
+DT_SCALES_Q = [('c', 0.5), ('x', 0.01), ('id', 0.5)]
+DT_SCALES_T = [('c', 0.5), ('x', 0.01), ('id', 0.5), ('c', 2.5), ('x', 3)]
+# operands of the column-type sweep: name -> number (Python int / float as written by a user)
+OPERANDS = {'0.5': 0.5, '0.01': 0.01, '1.5': 1.5, '-0.25': -0.25, '1/3': 1.0 / 3.0, '1e-3': 1e-3, '2.5': 2.5,
+            '0.999': 0.999, '3': 3, '2.0': 2.0, '-1': -1}
+OPERANDS_Q = ['0.5', '0.01', '-0.25', '1/3', '0.999', '3']
+
 
 def term_of(name):
     """Formula / condition by name; parametrised families are resolved from the name itself:
     xm:<m> = x*m, cm:<m> = (c-1)*m, k:<m> = the raw number m, col:<name> = the column itself,
+    fm:<col>:<k> = col*k, fg:<col>:<k> = col > k, fs:<col>:<k> = col - k, fq:<col>:<k> = (col*k == k) (k an operand name),
     nan:<mask>:<base> = base + log(1 - 2*[row tag in mask]) = base where the row is not in the mask, NaN where it is."""
     if name in FORMULAS:
         return FORMULAS[name]
@@ -175,6 +229,14 @@ def term_of(name):
         return N(MAGS[p[1]])
     if p[0] == 'col':
         return V(p[1])
+    if p[0] == 'fm':
+        return ('*', V(p[1]), N(OPERANDS[p[2]]))
+    if p[0] == 'fg':
+        return ('>', V(p[1]), N(OPERANDS[p[2]]))
+    if p[0] == 'fs':
+        return ('-', V(p[1]), N(OPERANDS[p[2]]))
+    if p[0] == 'fq':
+        return ('==', ('*', V(p[1]), N(OPERANDS[p[2]])), N(OPERANDS[p[2]]))
     if p[0] == 'nan':
         mask = int(p[1])
         ind = None
@@ -237,11 +299,13 @@ class RefTable:
     """Naive table: list of (original-row-id, {column: value}) pairs."""
 
     def __init__(self, table):
-        spec = TABLES[table]
+        base, var = split_table(table)
+        spec = TABLES[base]
+        xs = table_x(var)
         self.cols = list(COLS)
         self.rows = []
         for i in range(5):
-            self.rows.append((RID[i], {'x': float(XS[i]), 'id': float(spec['ids'][i]), 'r': float(RID[i]),
+            self.rows.append((RID[i], {'x': float(xs[i]), 'id': float(spec['ids'][i]), 'r': float(RID[i]),
                                        'c': float(CS[i])}))
         self.panel = None
         self.excluded = 0
@@ -341,7 +405,7 @@ def formula_name(op):
     """['add'|'define', column] uses the fixed formula of that column; ['add'|'define', column, formula] names it."""
     if len(op) > 2:
         return op[2]
-    for d in (ADDS, DEFINES, WIDE_ADDS, WIDE_DEFINES):
+    for d in (ADDS, DEFINES, WIDE_ADDS, WIDE_DEFINES, DT_ADDS, DT_DEFINES):
         if op[1] in d:
             return d[op[1]]
     raise KeyError(op)
@@ -365,8 +429,32 @@ def wide_mutators(ref: RefTable, tier):
     return ops
 
 
+def dt_mutators(ref: RefTable, tier):
+    """The column-type alphabet: every kind of operation with an operand that is not an integer."""
+    ops = []
+    for c in DT_CONDS:
+        if term_columns(ref.cond_term(c)) <= set(ref.cols):
+            ops.append(['remove', c])
+    for name in DT_ADDS:
+        if name not in ref.cols:
+            ops.append(['add', name])
+    for name in DT_DEFINES:
+        if name not in ref.cols:
+            ops.append(['define', name])
+    for col, s in (DT_SCALES_T if tier == 'thorough' else DT_SCALES_Q):
+        # the map of the individuals is keyed by the values of the panel column: scaling that column afterwards is a
+        # change of the identifiers, about which the statement says nothing
+        if col != ref.panel:
+            ops.append(['scale', col, s])
+    ops.append(['panel', 'id'])
+    return ops
+
+
 def mutators(ref: RefTable, tier, wide=False):
-    """Enabled mutating operations in the state described by the reference, simplest first."""
+    """Enabled mutating operations in the state described by the reference, simplest first.
+    `wide`: False = base alphabet, True / 'wide' = wide alphabet, 'dt' = column-type alphabet."""
+    if wide == 'dt':
+        return dt_mutators(ref, tier)
     if wide:
         return wide_mutators(ref, tier)
     ops = []
@@ -524,9 +612,28 @@ def make_db(table):
     import pandas as pd
     import biogeme.database as bdb
 
-    spec = TABLES[table]
-    data = {'x': list(XS), 'id': list(spec['ids']), 'r': list(RID), 'c': list(CS)}
-    df = pd.DataFrame(data, columns=COLS, index=spec['index'])
+    base, var = split_table(table)
+    spec = TABLES[base]
+    xs = table_x(var)
+    if var == 'v':
+        import io
+
+        text = ','.join(COLS) + '\n' + ''.join(
+            f'{int(xs[i])},{int(spec["ids"][i])},{int(RID[i])},{int(CS[i])}.0\n' for i in range(5))
+        df = pd.read_csv(io.StringIO(text))
+        if spec['index'] is not None:
+            df.index = list(spec['index'])
+        want = ['int64', 'int64', 'int64', 'float64']
+    else:
+        conv = {'m': None, 'i': int, 'f': float}[var]
+        data = {'x': list(xs), 'id': list(spec['ids']), 'r': list(RID), 'c': list(CS)}
+        if conv is not None:
+            data = {c: [conv(v) for v in vals] for c, vals in data.items()}
+        df = pd.DataFrame(data, columns=COLS, index=spec['index'])
+        want = {'m': ['float64', 'int64', 'int64', 'int64'], 'i': ['int64'] * 4, 'f': ['float64'] * 4}[var]
+    got = [str(t) for t in df.dtypes]
+    if got != want or [str(c) for c in df.columns] != COLS:
+        raise AssertionError(f'root table {table}: columns {list(df.columns)} of types {got}, intended {want}')
     return bdb.Database('t13', df)
 
 
@@ -699,13 +806,16 @@ def replay_history(table, history, check=True):
 
 
 # --------------------------------------------------------------------------- observers
-def observers(ref: RefTable, tier, wide=False):
+def observers(ref: RefTable, tier, wide=False, dt=False):
     """Observing operations enabled in the state, as JSON-able descriptors.  `wide`: the reduced list used in the
-    states of the wide alphabet and of the pattern sweeps (the complete list runs in the states of the main search)."""
+    states of the wide alphabet and of the pattern sweeps (the complete list runs in the states of the main search).
+    `dt`: states of the column-type alphabet -- additionally a formula with non-integer coefficients."""
     n = len(ref.rows)
     ops = []
     if n == 0:
         return ops
+    if dt:
+        ops.append(['values', 'frac'])
     if wide:
         ops += [['sizes'], ['values', 'lin'], ['count'], ['extract'], ['split', 2, 'id'], ['sample', 1], ['sample', 2]]
         if ref.panel is not None:
@@ -925,7 +1035,8 @@ def run_observer(R: Replayed, op, tier, rec: Rec, ctx, only_answer=None):
                 problems.append(('formula-values', f'values_from_database({op[1]}) = {got}, per-row reference {want}', None))
     elif k == 'count':
         for c in ref.cols:
-            vals = sorted({row[c] for _, row in ref.rows if row[c] == row[c]}) + [12345.0]   # defined values
+            # defined values of the column, a value no row holds, a value that is not an integer
+            vals = sorted({row[c] for _, row in ref.rows if row[c] == row[c]} | {12345.0, 0.5})
             for v in vals:
                 if only_answer is not None and only_answer != [c, v]:
                     continue
@@ -1093,10 +1204,14 @@ def op_label(op):
     return op[0] if op[0] not in ('flat', 'split') else (op[0] + ('-grouped' if op[0] == 'split' and op[2] else ''))
 
 
-def _valid_history(table, hist):
+def root_alphabet(root):
+    return 'dt' if root.get('dt') else bool(root.get('wide'))
+
+
+def _valid_history(table, hist, alphabet=False):
     ref = RefTable(table)
     for op in hist:
-        if len(ref.rows) == 0 or op not in mutators(ref, 'thorough'):
+        if len(ref.rows) == 0 or op not in mutators(ref, 'thorough', alphabet):
             return False
         ref.apply(op)
     return len(ref.rows) > 0
@@ -1105,7 +1220,7 @@ def _valid_history(table, hist):
 def reproduces(root, hist, op, observer, answer, clause, rec):
     """Does `op` (with `answer`) still fail with `clause` after the (shorter) history `hist`?"""
     table, tier = root['table'], root['tier']
-    if not _valid_history(table, hist):
+    if not _valid_history(table, hist, root_alphabet(root)):
         return None
     scratch = Rec()
     try:
@@ -1114,11 +1229,11 @@ def reproduces(root, hist, op, observer, answer, clause, rec):
         return None
     try:
         if observer:
-            if op not in observers(R.ref, tier):
+            if op not in observers(R.ref, tier, dt=bool(root.get('dt'))):
                 return None
             probs = run_observer(R, op, tier, scratch, dict(root=table, hist='', depth=len(hist)), only_answer=answer)
         else:
-            if op not in mutators(R.ref, 'thorough'):
+            if op not in mutators(R.ref, 'thorough', root_alphabet(root)):
                 return None
             probs, _ = step_and_compare(R, op, scratch)
     finally:
@@ -1145,7 +1260,20 @@ def shrink_history(root, history, op, observer, answer, clause, rec):
     return h, last
 
 
-def report(rec, problems, op, root, history, flags, observer, shrink=False):
+def operand_class(root, snap_, op):
+    """Column-type search and sweep: the finding key names the type of the column operated on and the kind of operand
+    (the class of input a type-dependent defect is tied to).  Empty for the other searches (their keys stay as they were)."""
+    if not root.get('dt') or snap_ is None:
+        return ''
+    types = dict(zip(snap_['cols'], snap_['dtypes']))
+    if op[0] == 'scale':
+        whole = float(op[2]).is_integer()
+        return f';column={types.get(op[1], "?")};factor={"integer" if whole else "non-integer"}'
+    kinds = sorted({t for c, t in types.items()})
+    return ';column-types=' + '+'.join(kinds)
+
+
+def report(rec, problems, op, root, history, flags, observer, shrink=False, extra=''):
     cache = rec.__dict__.setdefault('_shrunk', {})
     for p in problems:
         clause, detail = p[0], p[1]
@@ -1164,7 +1292,7 @@ def report(rec, problems, op, root, history, flags, observer, shrink=False):
             history_, flags_ = history, flags
         # failures tied to the form of an argument do not depend on the state: one key
         key = (f'C13|{clause}|op={op_label(op)}' if clause.endswith('-argument')
-               else f'C13|{clause}|op={op_label(op)};state={flags_}')
+               else f'C13|{clause}|op={op_label(op)};state={flags_}{extra}')
         case = dict(root=root, history=history_, op=op, observer=observer, answer=answer)
         rec.violation(key, f'{clause}: after history {history_} on table {root["table"]}, {op}'
                            f'{"" if answer is None else " with answer/argument " + str(answer)}: {detail}',
@@ -1173,17 +1301,17 @@ def report(rec, problems, op, root, history, flags, observer, shrink=False):
 
 # --------------------------------------------------------------------------- expansion of one state
 def expand(root, history, rec: Rec, do_observers=True, do_mutators=True, shrink=False):
-    table, tier, wide = root['table'], root['tier'], bool(root.get('wide'))
-    label = table + ('/wide' if wide else '')
+    table, tier, wide = root['table'], root['tier'], root_alphabet(root)
+    label = table + ('/dt' if wide == 'dt' else '/wide' if wide else '')
     R = replay_history(table, history)
     flags = flags_of(R.snap)
     canon0 = canon_of(R.snap)
     ctx = dict(root=label, hist=json.dumps(history), depth=len(history))
     succ = []
     if do_observers:
-        for op in observers(R.ref, tier, wide and not root.get('all_observers')):
+        for op in observers(R.ref, tier, bool(wide) and not root.get('all_observers'), dt=wide == 'dt'):
             problems = run_observer(R, op, tier, rec, ctx)
-            report(rec, problems, op, root, history, flags, True, shrink=shrink)
+            report(rec, problems, op, root, history, flags, True, shrink=shrink, extra=operand_class(root, R.snap, op))
             # an observing operation must leave the state unchanged
             try:
                 s1 = snap(R.db)
@@ -1204,7 +1332,7 @@ def expand(root, history, rec: Rec, do_observers=True, do_mutators=True, shrink=
                                                               s2['excluded'])))
             rec.transition()
             if problems:
-                report(rec, problems, op, root, history, flags, False)
+                report(rec, problems, op, root, history, flags, False, extra=operand_class(root, R.snap, op))
                 continue
             succ.append(dict(event=op, canon=canon_of(s2),
                              expand=len(s2['rows']) > 0 and len(history) + 1 < root.get('depth', 99)))
@@ -1254,7 +1382,20 @@ def bfs_roots(tier, seed):
     alphabet (value magnitudes, undefined values) to its own depth bound, with the reduced observer list."""
     roots = [dict(table=t, tier=tier) for t in ('A', 'B', 'C')]
     roots += [dict(table=t, tier=tier, wide=True, depth=3, all_observers=tier == 'thorough') for t in ('A', 'B', 'C')]
+    # third search: the column-type alphabet (operands that are not integers) from tables of every column typing
+    roots += [dict(table=t, tier=tier, dt=True, depth=3, all_observers=tier == 'thorough') for t in dt_tables(tier)]
+    if tier == 'thorough':
+        # the base alphabet (complete observer list) from one table of each column typing
+        roots += [dict(table=t, tier=tier, depth=3) for t in dt_tables('quick')]
     return roots
+
+
+def dt_tables(tier):
+    """Root tables of the column-type parts: quick = each index layout once, each column typing once;
+    thorough = every index layout x every column typing."""
+    if tier == 'quick':
+        return ['A.i', 'B.f', 'C.v']
+    return [t + '.' + v for v in DT_VARIANTS for t in ('A', 'B', 'C')]
 
 
 def bfs_expand(task):
@@ -1321,14 +1462,31 @@ def tool_layouts():
             dict(ids=[c, a, b, a + 100, b + 100], index=None)]            # every individual observed once
 
 
+def dt_forms(col, k):
+    """Every kind of transformation with the operand k (a name in OPERANDS) applied to the column col."""
+    return [[['scale', col, OPERANDS[k]]],                                   # change of units
+            [['add', 't', f'fm:{col}:{k}'], ['remove', 'col:t']],            # stored product, then used as condition
+            [['define', 'w', f'fs:{col}:{k}']],                              # stored difference
+            [['remove', f'fm:{col}:{k}']],                                   # product as condition (non-zero below 1)
+            [['remove', f'fg:{col}:{k}']],                                   # threshold that is not an integer
+            [['remove', f'fq:{col}:{k}']]]                                   # equality of two products
+
+
 def tasks(tier, seed):
     """Deep chains beyond the BFS depth bound: every prefix is compared with the reference, observers run
     after the last step (quick) or after every step (thorough).  Sweeps: magnitudes of condition values,
-    placements of undefined values (through define_variable and on raw frames)."""
+    placements of undefined values (through define_variable and on raw frames), operands x columns x column types."""
     t = []
     for table in ('A', 'B', 'C'):
         for ci in range(len(CHAINS)):
             t.append(dict(part='chain', root=dict(table=table, tier=tier), chain=ci))
+    for ti, table in enumerate(dt_tables(tier)):
+        for ci in range(len(CHAINS)):
+            if tier == 'thorough' or ci % 3 == ti % 3:
+                t.append(dict(part='chain', root=dict(table=table, tier=tier), chain=ci))
+    for table in ['A', 'B', 'C'] + dt_tables(tier):
+        for pi in range(len(PRE)):
+            t.append(dict(part='dtsweep', root=dict(table=table, tier=tier, dt=True, relative=True), pre=pi))
     for table in ('A', 'B', 'C'):
         for pi in range(len(PRE)):
             t.append(dict(part='mag', root=dict(table=table, tier=tier, wide=True), pre=pi))
@@ -1346,7 +1504,8 @@ def run_task(task):
     rec = Rec()
     install_seams()
     try:
-        {'chain': _run_chain, 'mag': _run_mag, 'nanpat': _run_nanpat, 'tool': _run_tool}[task['part']](task, rec)
+        {'chain': _run_chain, 'mag': _run_mag, 'nanpat': _run_nanpat, 'tool': _run_tool,
+         'dtsweep': _run_dtsweep}[task['part']](task, rec)
     finally:
         remove_seams()
     return rec.result()
@@ -1374,7 +1533,7 @@ def _run_steps(root, history, rec, tag, observe_last=True, start=0):
         if s2 is not None:
             rec.states.add(short_hash(repr((json.dumps(root, sort_keys=True), canon_of(s2))), 16))
         if problems:
-            report(rec, problems, op, root, hist, flags, False)
+            report(rec, problems, op, root, hist, flags, False, extra=operand_class(root, R.snap, op))
             return False
     if observe_last:
         ref = RefTable(table)
@@ -1407,6 +1566,25 @@ def _run_mag(task, rec):
             ok = _run_steps(root, pre + form[:-1], rec, 'mag', observe_last=len(form) > 1, start=len(pre))
             if ok:
                 _run_steps(root, pre + form, rec, 'mag', observe_last=root['tier'] == 'thorough', start=len(pre) + len(form) - 1)
+
+
+def _run_dtsweep(task, rec):
+    """operand x column x kind of transformation, after each of the earlier histories, on one root table."""
+    root, pre = task['root'], PRE[task['pre']]
+    thorough = root['tier'] == 'thorough'
+    rec.sample(dict(part='dtsweep', root=root, pre=pre, forms=dt_forms('c', '0.01')))
+    panel = any(op[0] == 'panel' for op in pre)
+    for k in (list(OPERANDS) if thorough else OPERANDS_Q):
+        for col in ('c', 'x', 'id'):
+            for form in dt_forms(col, k):
+                if form[0][0] == 'scale' and col == 'id' and panel:
+                    rec.count('skipped_scaling_of_the_panel_column')      # see dt_mutators
+                    continue
+                # observers in the state holding the written values: always after a scaling, thorough: every form
+                observe = len(form) == 1 and form[0][0] in (('scale', 'define') if thorough else ('scale',))
+                ok = _run_steps(root, pre + form[:1], rec, 'dt', observe_last=observe, start=len(pre))
+                if ok and len(form) > 1:
+                    _run_steps(root, pre + form, rec, 'dt', observe_last=thorough, start=len(pre) + 1)
 
 
 def _run_nanpat(task, rec):
@@ -1515,14 +1693,16 @@ def replay(case):
             canon0 = canon_of(R.snap)
             ctx = dict(root=table, hist=json.dumps(history), depth=len(history))
             problems = run_observer(R, op, tier, rec, ctx, only_answer=case.get('answer'))
-            report(rec, problems, op, root, history, flags, True)
+            report(rec, problems, op, root, history, flags, True, extra=operand_class(root, R.snap, op))
             c1 = canon_of(snap(R.db))
             if c1 != canon0:
                 report(rec, [('observer-changed-the-table', f'state before {canon0} / after {c1}')], op, root, history,
                        flags, True)
         else:
             problems, _ = step_and_compare(R, op, rec)
-            report(rec, problems, op, root, history, flags, False)
+            if not problems and root.get('relative') and op[0] in ('scale', 'add', 'define'):
+                problems = relative_cells(snap(R.db), R.ref, op[1])
+            report(rec, problems, op, root, history, flags, False, extra=operand_class(root, R.snap, op))
     finally:
         remove_seams()
     return rec.violations
